@@ -1,4 +1,5 @@
 import LabtechModel.Proofs.IntrWindow
+import LabtechModel.Proofs.IntrLimitW
 /-!
 # C14 — one Ctrl-C drains the run gracefully; a second one stops it at once
 
@@ -451,6 +452,34 @@ theorem drain_terminates_tracked (k : Nat) (hk : k < (mainOf cfg p store fuel sc
   rw [List.length_map] at h1
   omega
 
+/-- The drain bound in terms of the CONFIGURATION: at every interrupt instant the running map holds at
+    most `max_workers` entries (the every-instant worker limit of C04, `always_W_main`), so
+    `max_workers + 1` fair drain rounds always suffice — whatever the instant, window or not. -/
+theorem drain_terminates_max_workers (k : Nat) (hk : k < (mainOf cfg p store fuel sched).length)
+    (hfair : FairDrain ds) (hlen : cfg.maxWorkers + 1 ≤ ds.length) :
+    (interruptedRun cfg p store fuel sched k ds none).outcome ≠ .waiting := by
+  apply drain_terminates cfg p store fuel sched ds k hk hfair
+  have hw : WOK cfg (stateAt cfg p store fuel sched k) :=
+    (always_W_main (cfg := cfg) (p := p) (reqTids p) sched (initIS cfg p store fuel)
+      (WI_init (cfg := cfg) (p := p) store fuel)).prefix k
+  have h2 := hw.2
+  omega
+
+/-- … and with it the single-interrupt outcome theorem needs no knowledge of the state at the
+    interrupt: `max_workers + 1` fair rounds, any instant. -/
+theorem single_interrupt_raises_interrupt_max_workers (k : Nat)
+    (hk : k < (mainOf cfg p store fuel sched).length)
+    (hfair : FairDrain ds) (hlen : cfg.maxWorkers + 1 ≤ ds.length) :
+    (interruptedRun cfg p store fuel sched k ds none).outcome = .interrupted ∨
+      (cfg.contOnFail = false ∧
+        ∃ t, (interruptedRun cfg p store fuel sched k ds none).outcome = .raised (.labError t)) := by
+  apply single_interrupt_raises_interrupt_fair cfg p store fuel sched ds k hk hfair
+  have hw : WOK cfg (stateAt cfg p store fuel sched k) :=
+    (always_W_main (cfg := cfg) (p := p) (reqTids p) sched (initIS cfg p store fuel)
+      (WI_init (cfg := cfg) (p := p) store fuel)).prefix k
+  have h2 := hw.2
+  omega
+
 /-! ### non-vacuity, necessity of the hypotheses, and the window's witnesses -/
 
 /-- three independent tasks on two workers: the third one is started by `_start_processes` called
@@ -478,6 +507,13 @@ example : FairDrain c14Fair ∧
     (stateAt c14Cfg c14P [] 4 c14Sched 12).rs.running.length + 1 ≤ c14Fair.length ∧
     (interruptedRun c14Cfg c14P [] 4 c14Sched 12 c14Fair none).outcome = .interrupted :=
   ⟨c14Fair_fair, by decide, by decide⟩
+
+/-- `drain_terminates_max_workers` is not vacuous: `max_workers = 2`, three fair rounds, every instant
+    of the main stream is covered by the one hypothesis (and `max_workers` rounds are not enough:
+    the next example) -/
+example : c14Cfg.maxWorkers + 1 ≤ c14Fair.length ∧ 12 < (mainOf c14Cfg c14P [] 4 c14Sched).length ∧
+    (interruptedRun c14Cfg c14P [] 4 c14Sched 12 c14Fair none).outcome = .interrupted :=
+  ⟨by decide, by decide, by decide⟩
 
 /-- the length bound is needed: one fair round is not enough for two running workers … -/
 example : FairDrain [c14First] ∧
